@@ -209,8 +209,8 @@ Section Core.
 
   Lemma priv_bound (priv : list N) : bytes_ok priv ->
     0 <= bn_bin2bn priv (p_privlen P) < 2 ^ 256.
-  Proof.
-    intros Hp. unfold bn_bin2bn.
+  Proof using Hprivlen.
+    clear Hmod_ok Hmod_len Hmod_pos Htwo Hnadd Hnbadd. intros Hp. unfold bn_bin2bn.
     assert (Hok : bytes_ok (firstn (p_privlen P) priv)) by (apply bytes_ok_firstn; exact Hp).
     pose proof (be_decode_bound _ Hok) as [H0 H1]. split; [exact H0|].
     eapply Z.lt_le_trans; [exact H1|]. rewrite firstn_length, Hprivlen.
@@ -224,7 +224,7 @@ Section Core.
     blinded_modexp P modexp_Z bn_mod_mul r0 a priv (Some blinding) =
     Some (be_encode (p_publen P) (modexp_Z a (2 ^ 258 + bn_bin2bn priv (p_privlen P)) (modulus P))).
   Proof.
-    intros Hr0 Hp Hb. unfold blinded_modexp.
+    intros Hr0 Hp Hb. unfold blinded_modexp, blinded_exponents.
     rewrite Htwo, Hnadd, Hnbadd, !add_times_eq.
     pose proof (priv_bound priv Hp) as Hx. pose proof (priv_bound blinding Hb) as Hbl.
     set (x := bn_bin2bn priv (p_privlen P)) in *.
@@ -242,6 +242,19 @@ Section Core.
     destruct (Z.ltb_spec (bn_num_bytes v) 0); [lia|].
     destruct (Z.gtb_spec (bn_num_bytes v) (Z.of_nat (p_publen P))); [lia|].
     f_equal. apply pad_then_bn2bin; assumption.
+  Qed.
+
+  (* the exponent split: both exponents handed to BN_mod_exp are positive and add up to 2^258 + priv *)
+  Lemma blinded_exponents_core (priv blinding : list N) :
+    bytes_ok priv -> bytes_ok blinding ->
+    let '(e1, e2) := blinded_exponents P priv blinding in
+    0 < e1 /\ 0 < e2 /\ e1 + e2 = 2 ^ 258 + bn_bin2bn priv (p_privlen P).
+  Proof using Htwo Hnadd Hnbadd Hprivlen.
+    clear Hmod_ok Hmod_len Hmod_pos. intros Hp Hb. unfold blinded_exponents. rewrite Htwo, Hnadd, Hnbadd, !add_times_eq.
+    pose proof (priv_bound priv Hp) as Hx. pose proof (priv_bound blinding Hb) as Hbl.
+    assert (H256 : 0 < 2 ^ 256) by (apply Z.pow_pos_nonneg; lia).
+    assert (E258 : 2 ^ 258 = 4 * 2 ^ 256) by (change 258 with (2 + 256); rewrite Z.pow_add_r by lia; reflexivity).
+    lia.
   Qed.
 
   (* entropy failure is reported *)
@@ -306,6 +319,18 @@ Proof.
   replace (p_privlen repo_params) with 32%nat by reflexivity.
   replace (p_publen repo_params) with 256%nat by reflexivity.
   rewrite firstn_all2 by lia. unfold modexp_Z. reflexivity.
+Qed.
+
+Theorem blinded_exponents_split (priv blinding : list N) :
+  bytes_ok priv -> length priv = 32%nat -> bytes_ok blinding ->
+  let '(e1, e2) := blinded_exponents repo_params priv blinding in
+  0 < e1 /\ 0 < e2 /\ e1 + e2 = 2 ^ 258 + be_decode priv.
+Proof.
+  intros Hp Hpl Hb.
+  pose proof (blinded_exponents_core repo_params repo_two256 eq_refl eq_refl eq_refl priv blinding Hp Hb) as H.
+  destruct (blinded_exponents repo_params priv blinding) as [e1 e2].
+  unfold bn_bin2bn in H. replace (p_privlen repo_params) with 32%nat in H by reflexivity.
+  rewrite firstn_all2 in H by lia. exact H.
 Qed.
 
 (* the same statement for integers: every 256-bit private value x, every a >= 0, every 256-bit r *)
